@@ -193,6 +193,9 @@ def generate(rng):
             if faulty and bonds and rng.random() < 0.2:
                 bonds[rng.randrange(len(bonds))][rng.randrange(2)] = rng.choice([n, n + 3, -n - 1, -2 * n - 2])
             op = {"op": "new", "dst": dst, "n": n, "bonds": bonds, "cols": rng.choice([2, 3, 3]), "dtype": rng.choice(["int64", "int32", "int64"])}
+            if rng.random() < 0.4:
+                # memory layout of the (n,2)/(n,3) array: column-major, forced C order, a strided view, read-only
+                op["layout"] = rng.choice(["F", "F", "C", "rev", "ro"])
             ops.append(op)
             res = apply_model(ms, op)
             if res[0] == "ok":
@@ -482,6 +485,16 @@ class Sim:
             def f():
                 if op["bonds"]:
                     a = np.array(op["bonds"], dtype=op["dtype"])[:, :op["cols"]]
+                    lay = op.get("layout")
+                    if lay == "F":
+                        a = np.asfortranarray(a)  # what np.array([first, second, types]).T gives
+                    elif lay == "C":
+                        a = np.ascontiguousarray(a)
+                    elif lay == "rev":
+                        a = a[::-1][::-1]  # doubly reversed view: same rows, negative-then-positive strides
+                    elif lay == "ro":
+                        a = np.ascontiguousarray(a)
+                        a.flags.writeable = False
                     return BL(op["n"], a), None
                 return BL(op["n"]), None
             return f
